@@ -18,7 +18,7 @@ RULE = ("inputs {single file, flat directory, nested directory, missing path, fi
         "CMinx; oracle: logged argv == [input] + ['-r' iff directory] + extras + ['-o', output], output tree byte-identical "
         "to the direct CLI run with that argv, cmake fails (no marker) iff the direct run fails. Non-trivial: extra list "
         "non-empty, or failing input; distinct by SHA-1 of the case")
-RULE_MORE = 'argument values that change under a second CMake evaluation (${VAR}, escaped characters); project mode: the call sits in an add_subdirectory() level of a project configured from a working directory other than its source directory; drivers declare cmake_minimum_required.'
+RULE_MORE = "argument values that change under a second CMake evaluation (${VAR}, escaped characters); project mode: the call sits in an add_subdirectory() level of a project configured from a working directory other than its source directory; drivers declare cmake_minimum_required. Later: values with leading/trailing blanks; pages of other inputs in both outputs; paths with ':' '\\' and unbalanced brackets."
 ASSUMPTIONS = ["CMake 3.25.1 at /usr/bin/cmake is the host; a CMake list cannot carry ';' unescaped, so values avoid it",
                "the order of the option groups is taken from the documented behaviour of cminx.cmake (input, -r, extras, -o output)"]
 BUDGET = {"quick": {"shards": 8, "examples": 25}, "thorough": {"shards": 16, "examples": 150}}
